@@ -56,12 +56,17 @@ def h_send(ex, state, entry, addr=128, dll='j1939-21'):
             is_claim = fld['pf'] == 0xEE
             is_req_claim = sym_and(fld['pf'] == 0xEA, fld['sa'] == 254, len(f['data']) == 3,
                                    sym_eq_seq(f['data'], [0x00, 0xEE, 0x00]))
+            if dll != 'j1939-21' and bool(fld['pf'] == 0x25):
+                # J1939-22 wraps the request into a multi-PG frame: one contained group, PGN 0xEA00, data 00 EE 00
+                from ..ref import tp22
+                dec, _ = tp22.mpg_decode(f['data'])
+                is_req_claim = sym_and(fld['sa'] == 254, len(dec) == 1, *( [dec[0][2] == 0xEA00, len(dec[0][3]) == 3, sym_eq_seq(dec[0][3], [0x00, 0xEE, 0x00])] if len(dec) == 1 else [False]))
             ex.claim('no_application_frame_without_address', sym_or(is_claim, is_req_claim), dict(info, id=f['id']))
         if entry == 'dm1_timer':
             pass    # the timer context cannot raise to the application
         elif entry == 'send_request':
             # raises unless it is the request for address claim
-            sent_req = [f for f in new if bool(ids.id_fields(f['id'])['pf'] == 0xEA)]
+            sent_req = [f for f in new if bool(ids.id_fields(f['id'])['pf'] == (0xEA if dll == 'j1939-21' else 0x25))]
             ex.claim('raises_without_address', (raised is not None) != (len(sent_req) > 0), info)
         else:
             ex.claim('raises_without_address', raised is not None, info)
@@ -84,7 +89,7 @@ def jobs(tier):
         addr = 10 if state == 'normal_immediate' else 128
         for entry in ENTRIES:
             out.append(Job('C13', 'c13:h_send', {'state': state, 'entry': entry, 'addr': addr}, W=40, wall=120, validate=1))
-    if tier != 'quick':
+    if True:
         for state in CA_STATES:
             for entry in ('send_pgn', 'send_pgn_long', 'send_request'):
                 out.append(Job('C13', 'c13:h_send', {'state': state, 'entry': entry, 'addr': 10 if state == 'normal_immediate' else 200, 'dll': 'j1939-22'}, W=40, wall=120, validate=1))
@@ -96,6 +101,6 @@ def meta(tier):
         'bounds': ['claim histories ' + str(CA_STATES) + ' reached by the real claim procedure (contending claims injected with a lower NAME)',
                    'entry points ' + str(ENTRIES) + '; PGN (data page, PDU format, PDU specific), priority, destination, payload, SPN/FMI, pointer symbolic',
                    'preferred address 128 (veto range) / 10 (immediate range)'],
-        'outside': ['other preferred addresses', 'J1939-22 entry points in the quick tier'],
+        'outside': ['other preferred addresses', 'J1939-22: only send_pgn / send_request'],
         'assumptions': ['the cyclic DM1 sender runs from the timer: only "no DM1 frame while not operational" is claimed for it (that the exception then ends the job thread is recorded as an observation)'],
     }
